@@ -353,7 +353,8 @@ DataReplyOK(b, r) ==
           THEN LET sh == AppPortShift("tcp", StreamBefore(t.flow), TcpPayload(b)) IN
                IF sh = { 1 } THEN V("C15", "change-port-answered-from-the-next-port", TcpSport(r, rs) = (t.dport + 1) % 65536)
                ELSE IF sh = { 0 } THEN V("C15", "answered-from-the-contacted-port", TcpSport(r, rs) = t.dport)
-               ELSE {}
+               ELSE V("C15", "answered-from-the-contacted-or-the-next-port",
+                      \E d \in sh : TcpSport(r, rs) = (t.dport + d) % 65536)
           ELSE {})
     \cup V("C07", "data-reply-has-ack", HasFlag(TcpFlags(r, rs), F_ACK))
     \cup V("C07", "psh-iff-application-data", HasFlag(TcpFlags(r, rs), F_PSH) <=> hasData)
@@ -371,6 +372,9 @@ UdpReplyOK(b, r) ==
           THEN V("C15", "change-port-answered-from-the-next-port", UdpSport(r, rs) = (u.dport + 1) % 65536)
           ELSE IF AppPortShift("udp", << >>, UdpPayload(b)) = { 0 } /\ RefId(UdpPayload(b), TRUE) = "STUN"
           THEN V("C15", "answered-from-the-contacted-port", UdpSport(r, rs) = u.dport)
+          ELSE IF RefId(UdpPayload(b), TRUE) = "STUN"
+          THEN V("C15", "answered-from-the-contacted-or-the-next-port",
+                 \E sh \in AppPortShift("udp", << >>, UdpPayload(b)) : UdpSport(r, rs) = (u.dport + sh) % 65536)
           ELSE {})
 
 AppReplyOf(r) == LET rs == L4Start(r) IN
